@@ -839,7 +839,8 @@ ASSUMPTIONS = [
     "unbounded in list lengths and segment sizes, BOUNDED in the number of declared constructs",
     "get_construct_defs / get_op_constructs / option.container / DenseArrayBase.get_values are bound as opaque expressions returning the declared lists (assumed)",
     "per-piece constraint checking (arg_def.constr.verify, properties, attributes, constraint variables) is C09 and not covered here",
-    "irdl_op_verify_arg_list / irdl_op_verify_regions: their idx bookkeeping only feeds error messages; not under contract",
+    "irdl_op_verify_arg_list is under contract for <= 3 definitions (loop unrolled; accessors returning None / one value / a sequence of symbolic length): every definition is "
+    "verified against exactly its segment, in the shared context; the constraint's own verify is an uninterpreted accept/raise here (C09). irdl_op_verify_regions: bounded only",
     "SameOptional*Accessor and the region/successor variants share the index arithmetic proved for operands; only bounded coverage",
 ]
 
